@@ -151,6 +151,12 @@ ASMJIT_FAVOR_SIZE Error FuncFrame::finalize() noexcept {
 
   const ArchTraits& arch_traits = ArchTraits::by_arch(arch());
 
+  // The frame is computed by 32-bit arithmetic and addressed by signed 32-bit displacements - refuse sizes that would
+  // wrap around or exceed what prolog and epilog can encode (64 KiB is reserved for save areas and alignment).
+  if (uint64_t(_call_stack_size) + uint64_t(_local_stack_size) > 0x7FFF0000u) {
+    return make_error(Error::kTooLarge);
+  }
+
   uint32_t register_size = _save_restore_reg_size[RegGroup::kGp];
   uint32_t vector_size = _save_restore_reg_size[RegGroup::kVec];
   uint32_t return_address_size = arch_traits.has_link_reg() ? 0u : register_size;
